@@ -396,6 +396,13 @@ func (s *socket) MaybeUpgrade(transport transports.Transport) {
 
 			s.clearTransport()
 			s.setTransport(transport)
+			if s.ReadyState() == "closed" {
+				// closed meanwhile: OnClose stores the state before it tears the
+				// transport down, so either it has closed the new transport or
+				// the state is visible here
+				s.clearTransport()
+				return
+			}
 			s.Emit("upgrade", transport)
 			s.flush()
 			if s.ReadyState() == "closing" {
@@ -630,6 +637,10 @@ func (s *socket) getAvailableUpgrades() []string {
 func (s *socket) Close(discard bool) {
 	if discard &&
 		(s.ReadyState() == "open" || s.ReadyState() == "closing") {
+		// a switch of transports that is under way closes the new transport
+		// when it finds the session closing (the old one no longer runs the
+		// callback that completes this close)
+		s.readyState.CompareAndSwap("open", "closing")
 		s.closeTransport(discard)
 		return
 	}
